@@ -535,6 +535,26 @@ def generate(repo):
         for m in re.finditer(r'Q_MUTEX_NEW\s*\(\s*[^,]+,\s*([^)]+?)\s*\)', txt):
             news.append((os.path.basename(f), m.group(1).strip() == 'true'))
     out.append("Definition mutex_new_recursive : list (string * bool) := [%s]." % '; '.join('("%s", %s)' % (n, 'true' if r else 'false') for n, r in news))
+    # variables with static storage duration defined in the container sources (file scope, function-local static, thread-local),
+    # const ones excepted: state that outlives a call and is not part of any container, so no container lock protects it
+    statics_found = []
+    def scan_static(n, infn, f):
+        k = n.get('kind')
+        if k == 'FunctionDecl':
+            infn = n.get('name')
+        if k == 'VarDecl':
+            loc = n.get('loc', {}) if isinstance(n.get('loc'), dict) else {}
+            inc = 'includedFrom' in loc or 'includedFrom' in loc.get('expansionLoc', {}) or 'includedFrom' in loc.get('spellingLoc', {})
+            sc, tls = n.get('storageClass'), n.get('tls')
+            qt = n.get('type', {}).get('qualType', '')
+            const = qt.startswith('const ') and '*' not in qt or qt.rstrip().endswith('const')
+            if not inc and sc != 'extern' and (infn is None or sc == 'static' or tls) and not const:
+                statics_found.append((os.path.basename(f), (infn + ':' if infn else '') + n.get('name', '?')))
+        for c in n.get('inner', []):
+            scan_static(c, infn, f)
+    for f in FILES:
+        scan_static(tus[f], None, f)
+    out.append("Definition static_state : list (string * string) := [%s]." % '; '.join('("%s", "%s")' % x for x in sorted(set(statics_found))))
     out.append("Definition lock_users : list string := [%s]." % '; '.join('"%s"' % n for n in sorted(locky) if n in pub))
     out.append("Definition mutable_fields : list (string * string) := [%s]." % '; '.join('("%s", "%s")' % m for m in sorted(mutable)))
     return {'LockAst.v': '\n'.join(out) + '\n'}
